@@ -29,7 +29,7 @@ THEOREMS = {
             "Named.C19_split_bordered_counter", "Named.C19_genFormat", "Named.C19_pairs", "Named.C19_pairs_exact_partial", "Named.C19_statement_partial",
             "Named.C19_statement_unnamed_partial", "Named.fmtSubst_render",
             "Named.C19_json_members", "Named.C19_json_single_line", "Named.C19_template_newlines", "Named.C19_json_parses",
-            "Named.C19_cache_transparent", "Named.C19_lookup_transparent", "Named.C19_logj",
+            "Named.C19_loops_run_to_completion", "Named.C19_cache_transparent", "Named.C19_lookup_transparent", "Named.C19_logj",
             "Obligations.named_extraction_complete", "Obligations.named_separator_ok", "Obligations.named_json_layout",
             "Obligations.named_json_literals", "Obligations.named_detect_chars", "Obligations.named_process_chars",
             "Obligations.named_cache_key", "Obligations.named_logj_shape", "Obligations.C19_split_join_extracted",
